@@ -1,0 +1,12 @@
+//go:build verif
+
+// Machine-checked contracts for package openapiv3 (read by /verif/govc as text).
+
+package openapiv3
+
+//@ func extractMethodHTTPInfo(service *protogen.Service, method *protogen.Method) (r methodHTTPInfo)
+//@   pure
+//@   ensures verb: r.httpMethod == spec.lowerVerb(spec.verbOf(method))
+//@   ensures path.annotated: spec.basePath(service) != "" || spec.hasConfig(method) ==> r.path == spec.JoinPath(spec.basePath(service), ite(spec.hasConfig(method), spec.cfgPath(method), ""))
+//@   ensures path.default: spec.basePath(service) == "" && !spec.hasConfig(method) ==> r.path == "/" + string(service.Desc.Name()) + "/" + string(method.Desc.Name())
+//@   ensures vars: r.pathParams == spec.pathVars(method)
